@@ -10,7 +10,9 @@ for d in seeded/*/; do
   # e.g. concurrency defects in a package whose own property is sequential are C19's business)
   prop=$(python3 -c "import json;m=json.load(open('$d/meta.json'));print(' '.join(m.get('check_with') or [m['property']]))")
   set -- $prop; first=$1; shift
-  res=$(SKIP_REPO_TESTS=1 selftest/seeded_run.sh "$d" "$first" "$tier" "$@" 2>&1)
+  # a change that only a thorough check can reach names that tier in meta.json ("check_tier")
+  t=$(python3 -c "import json;print(json.load(open('$d/meta.json')).get('check_tier') or '$tier')")
+  res=$(SKIP_REPO_TESTS=1 selftest/seeded_run.sh "$d" "$first" "$t" "$@" 2>&1)
   verdict=$(echo "$res" | grep -E "^CAUGHT" | head -1)
   [ -n "$verdict" ] || verdict=$(echo "$res" | grep -E "^MISSED" | head -1)
   key=$(echo "$res" | grep -E "^  key=" | head -1 | cut -c1-160)
